@@ -3246,6 +3246,37 @@ def measured_programs_stream(ctx, cirq, v2, n):
             ctx.mark_broken('correspondence:find_measurements', f'model and implementation differ on {circuit_literal(part[idx][2])}: model input {part[idx][0]}, implementation {part[idx][1]}'[:2500])
 
 
+def scalar_extremes_stream(ctx, cirq, cg):
+    """Scalar numeric arguments at the edges of the float32 value field (infinities, values beyond the float32 range, the largest
+    finite float32, huge integers given as floats, tiny values): writing and reading back must not raise, and the value read back
+    is the value written rounded once to float32 (fixed for every seed)."""
+    import math
+    from cirq_google.serialization import arg_func_langs as afl
+    vals = [float('inf'), float('-inf'), 1e40, -1e39, 3.4028234e38, 3.5e38, 1e300, 2.0 ** 100, -2.0 ** 64, 1e-50, -1e-46, 16777217.0, 0.1, -0.0, 1e15, 123456789.0]
+    q = cirq.GridQubit(0, 0)
+    for v in vals:
+        with np.errstate(all="ignore"):
+            want = float(np.float32(v))
+        entries = {
+            'arg_from_proto(arg_to_proto(v))': lambda: afl.arg_from_proto(afl.arg_to_proto(v)),
+            'float_arg_from_proto(float_arg_to_proto(v))': lambda: afl.float_arg_from_proto(afl.float_arg_to_proto(v)),
+            'InternalGate argument in a program': lambda: next(iter(cg.CircuitSerializer().deserialize(cg.CircuitSerializer().serialize(cirq.Circuit(
+                cg.InternalGate(gate_name='g', gate_module='m', num_qubits=1, x=v).on(q)))).all_operations())).gate.gate_args['x'],
+        }
+        for name, f in entries.items():
+            ctx.count('scalar_extremes', [name, repr(v)], True, sample=dict(entry=name, value=repr(v)))
+            try:
+                with np.errstate(all='ignore'):
+                    got = f()
+            except Exception as e:
+                ctx.violation(f'arg:scalar-extreme:raises:{type(e).__name__}', f'{name} with v = {v!r} raised {type(e).__name__}: {e}; the value is written as the float32 {want!r} and must read back as that',
+                              dict(kind='scalar_extreme', entry=name, value=repr(v)))
+                continue
+            ok = isinstance(got, (int, float, np.floating, np.integer)) and ((math.isinf(want) and float(got) == want) or (not math.isinf(want) and float(got) == want))
+            if not ok:
+                ctx.violation('arg:scalar-extreme:value', f'{name} with v = {v!r} read back {got!r}; the float32 written holds {want!r}', dict(kind='scalar_extreme', entry=name, value=repr(v)))
+
+
 def run(ctx):
     mods = env.import_cirq(('cirq_google',))
     cirq, cg = mods['cirq'], mods['cirq_google']
@@ -3299,6 +3330,7 @@ def streams(ctx, cirq, cg, v2, q):
     out.append(('measured_programs', lambda: measured_programs_stream(ctx, cirq, v2, 150 if q else 2500)))
     out.append(('ndarrays', lambda: ndarrays_stream(ctx, cirq, cg, 200 if q else 3000)))
     out.append(('arg_sequences', lambda: arg_sequences_stream(ctx, cirq, cg, 300 if q else 6000)))
+    out.append(('scalar_extremes', lambda: scalar_extremes_stream(ctx, cirq, cg)))
     out.append(('qubit_ids', lambda: qubit_ids_stream(ctx, cirq, cg, v2, 300 if q else 3000)))
     out.append(('unit_values', lambda: unit_values_stream(ctx, cirq, cg, v2, 60 if q else 400)))
     out.append(('sweeps', lambda: sweeps_stream(ctx, cirq, cg, v2, 250 if q else 2500)))
